@@ -106,7 +106,35 @@ contract(
         "at-most-one-child-added": "nchildren(node) == old(nchildren(node)) or nchildren(node) == old(nchildren(node)) + 1",
         "child-wf": "implies(nchildren(node) == old(nchildren(node)) + 1, child_at(node, nchildren(node) - 1).parent == node "
         "and child_at(node, nchildren(node) - 1).start == 0 and child_at(node, nchildren(node) - 1).end == len(data) "
-        "and len(child_at(node, nchildren(node) - 1).value) == len(data) and child_at(node, nchildren(node) - 1) >= old(alloc()))",
+        "and len(child_at(node, nchildren(node) - 1).value) == len(data) and child_at(node, nchildren(node) - 1) >= old(alloc()) "
+        "and child_at(node, nchildren(node) - 1) < alloc() and nchildren(child_at(node, nchildren(node) - 1)) == 0)",
+        "earlier-children-kept": "forall(range(old(nchildren(node))), lambda k: child_at(node, k) == old(child_at(node, k)))",
         "single-byte-key": "implies(nchildren(node) == old(nchildren(node)) + 1, 0 <= xorkey <= 255)",
     },
 )
+
+# ---- xor key reader and the PowerShell call forms (C13)
+contract(
+    "multidecoder.xor_helper.get_xorkey",
+    props=["C13", "C01"],
+    returns="int|None",
+    ensures={"a-number-of-at-most-three-digits": "result is None or 0 <= result <= 999"},
+)
+
+contract(
+    "multidecoder.decoders.base64.pad_base64",
+    props=["C13"],
+    ensures={
+        "multiple-of-four": "len(result) % 4 == 0",
+        "unchanged-when-aligned": "implies(len(b64) % 4 == 0, result == b64)",
+        "one-char-dropped-when-corrupt": "implies(len(b64) % 4 == 1, result == b64[: len(b64) - 1])",
+        "padded-otherwise": "implies(len(b64) % 4 >= 2, len(result) == len(b64) + (4 - len(b64) % 4) and result[: len(b64)] == b64)",
+    },
+)
+
+XOR_CHILD = ("forall(range(nchildren(node)), lambda k: child_at(node, k).parent == node and child_at(node, k).start == 0 "
+             "and child_at(node, k).end == len(node.value) and len(child_at(node, k).value) == len(node.value))")
+decoder("multidecoder.decoders.base64.find_FromBase64String", ["C01", "C03", "C13"], collector="out",
+        each={**T("powershell.bytes", "encoding.base64"), "at-most-one-xor-child-spanning-the-value": "nchildren(node) <= 1 and " + XOR_CHILD})
+decoder("multidecoder.decoders.hex.find_FromHexString", ["C01", "C03", "C13"], collector="out",
+        each={**T("powershell.bytes", "encoding.hexidecimal"), "at-most-one-xor-child-spanning-the-value": "nchildren(node) <= 1 and " + XOR_CHILD})
